@@ -180,6 +180,11 @@ def gen_c05(ctx):
         cases.append(f"in={a} out={b} err={c} det=0 thread=1 argv={TRUE}")
     for a, b, c in [("N", "M", "N"), ("N", "N", "M"), ("N", "N", "N")] * 2:
         cases.append(f"in={a} out={b} err={c} det=0 argv={TRUE}")
+    # descriptor exhaustion at each pipe() of a launch with three pipes (and at the fcntl after it)
+    for k in range(4):
+        cases.append(f"in=P out=P err=P det=0 argv={TRUE} faults=P.pipe.{k}.24")
+        cases.append(f"in=N out=P err=M det=0 argv={TRUE} faults=P.pipe.{min(k, 1)}.23")
+    cases.append(f"in=P out=P err=P det=0 argv={TRUE} faults=P.fcntl.1.24")
     # options that have nothing to do with redirection must not change the wiring -- also when the caller's own streams are a
     # terminal (an "inherited" stream is the caller's own stream, whatever kind of file that is)
     for tty in ("0", "012", "12"):
@@ -213,6 +218,17 @@ def oracle_c05(c, viol):
                  "merge-for-both-outputs-accepted" if i != "M" else None)
         if forked(c):
             viol(f"invalid combination in={i} out={o} err={e}: a process was started")
+        return
+    if kv.get("faults", "-") != "-":
+        # a launch that fails part-way (descriptor exhaustion): "spawning never closes or alters the parent's own standard
+        # streams" holds for failed attempts too
+        for n in range(3):
+            if c["pfd"]["dropped"].get(n) != c["pfd"]["before"].get(n):
+                viol(f"a failed launch ({kv['faults']}) changed or closed the parent's own fd {n} "
+                     f"({c['pfd']['before'].get(n)} -> {c['pfd']['dropped'].get(n)})")
+        for l in c["log"]:
+            if re.match(r"P (?:close [012] |dup2 \d+ [012] )", l):
+                viol(f"a failed launch ({kv['faults']}) touched the parent's own standard stream: {l}")
         return
     if res[0] != "ok":
         viol(f"valid combination in={i} out={o} err={e} failed: {' '.join(res)}")
@@ -308,6 +324,14 @@ def gen_c06(ctx):
         if "R" not in spec and rng.below(3) == 0:
             spec += " viaclone=1"
         cases.append(spec)
+    # the working directory is entered with the CALLER's credentials (before the identity change): a directory only the
+    # caller may search, an identity that may not
+    priv = os.path.join(FS, "priv0700")
+    os.makedirs(priv, exist_ok=True)
+    os.chmod(priv, 0o700)
+    cases.append(f"in=N out=N err=N det=0 uid=65534 gid=65533 cwd={hx(priv)} argv={TRUE}")
+    cases.append(f"in=N out=N err=N det=0 uid=65534 cwd={hx(priv)} argv={TRUE}")
+    cases.append(f"in=N out=N err=N det=0 gid=65533 pgid=1 cwd={hx(priv)} argv={TRUE}")
     # every field of a configuration survives try_clone()
     cases.append(f"in=N out=N err=N det=0 pgid=1 viaclone=1 argv={TRUE}")
     cases.append(f"in=N out=N err=N det=0 uid=1000 gid=1001 pgid=1 cwd={hx(cw[10])} exe={hx('/bin/true')} viaclone=1 argv={hx('zz')} env={hx('A')}:{hx('1')}")
@@ -453,6 +477,10 @@ def oracle_c07(c, viol):
     if res[0] == "logic" and "PANIC" in " ".join(res):
         viol("Popen::create panicked instead of returning a result")
         return
+    if escaped_child(c) is not None:
+        viol(f"the forked child of this launch returned from Popen::create instead of reporting its failure and exiting: a child "
+             f"of the attempt is left running (as a copy of the caller), and the parent got {' '.join(res)}")
+        return
     ex = execs(c)
     started = any(r == "OK" for _, r in ex)
     if res[0] == "ok" and not started:
@@ -535,6 +563,14 @@ def gen_c08(ctx):
     for closed in CLOSED_SETS:
         for i, o, e in itertools.product(["N", "P"], repeat=3):
             cases.append(f"in={i} out={o} err={e} det=0 live={(0, 2)[len(cases) % 2]} argv={TRUE} closed={closed}")
+    # launches whose child fails at one of its own steps, while other Popens are alive: the child must end (it holds a copy of
+    # everything the parent had at fork time, whatever the close-on-exec flags say) -- every child-side step that can fail
+    for i, o, e in (("N", "N", "N"), ("P", "P", "P")):
+        for opt in ("uid=4294967295", "gid=4294967295", "uid=0 gid=4294967295", f"cwd={hx('/nonexistent/dir')}",
+                    "uid=0 faults=C.setuid.0.1", "gid=0 faults=C.setgid.0.1", "pgid=1 faults=C.setpgid.0.1",
+                    "faults=C.dup2.0.9" if i == "P" else "faults=C.signal.0.22"):
+            cases.append(f"in={i} out={o} err={e} det=0 live=2 {opt} argv={TRUE}")
+        cases.append(f"in={i} out={o} err={e} det=0 live=2 argv={hx('/nonexistent/prog')}")
     return cases
 
 
@@ -563,7 +599,26 @@ def oracle_c08_window(c, viol):
              f"has closed its child ends", "concurrent-spawn-window")
 
 
+def escaped_child(c):
+    """the descriptor table of a forked child that *returned* from Popen::create (the harness ends such a copy at once)"""
+    for l in c["log"]:
+        if l.startswith("C escaped"):
+            d = {}
+            for t in l.split()[2:]:
+                k, _, v = t.partition("=")
+                d[k] = v
+            return d
+    return None
+
+
 def oracle_c08(c, viol):
+    esc = escaped_child(c)
+    if esc is not None:
+        held = sorted(int(k[2:]) for k in esc if re.match(r"fd\d+$", k) and int(k[2:]) > 2)
+        viol(f"the forked child of this launch neither started a program nor exited: it returned from Popen::create as a second "
+             f"copy of the caller (pid {esc.get('pid')}), holding the caller's descriptors {held} -- the parent's ends of every live "
+             f"Popen's pipes among them; close-on-exec does nothing for a child that never execs")
+        return
     if "window" in c["kv"]:
         oracle_c08_window(c, viol)
         return
